@@ -132,7 +132,9 @@ def unlock(ctx, P):
         names = [t['f'].get('fn', '') for i, t in bb.calls()]
         need = ['Serialize::to_writer', 'Hkdf', 'Tag::encode']
         oks = ok_exit_blocks(bb)
-        ser = [i for i, t in bb.calls(r'ser::Serialize::to_writer$') if has_origin(bb.operand_origins(t['args'][0]), r'param:3$')]
+        # the WHOLE public key packet body: Serialize::to_writer invoked on the key parameter's own type (not on one of its parts)
+        kty = re.sub(r"^&('\w+ )?(mut )?", '', bb.r['locals'][3]['ty'])
+        ser = [i for i, t in bb.calls(r'ser::Serialize::to_writer$') if has_origin(bb.operand_origins(t['args'][0]), r'param:3$') and t['f'].get('selfty') == kty]
         every, _ = must_pass(bb, oks, ser) if ser else (False, None)
         ok = every and any('hkdf' in n.lower() for n in names)
         ctx.check(P + ':usage-aead:binds-public-key', 'R-seq', 's2k_usage_aead serialises the public key (its `pub_key` parameter) into the associated data on EVERY path to Ok, for every key version, and derives through HKDF', ok,
